@@ -50,6 +50,8 @@ type nameSpace struct {
 	// steps counts the template nodes visited by the analysis started by the current
 	// Execute call.
 	steps int
+	// depth is the nesting depth of the node that the analysis is at.
+	depth int
 	// cost holds, per analysed (mangled) template name, the number of nodes that its
 	// analysis visited.
 	cost map[string]int
